@@ -11,7 +11,7 @@ from harness.c01 import resolve, collect_slots, num
 PROPERTY = "C18"
 LEVEL = "model_checking"
 BOUNDS = {"hours_per_series": "N=2", "skeletons": "T1,T2,T3,T4,T5,T7,T9,TX; builder systems (video, web, generative AI, cloud instance)", "recomputation requests": "each object alone; each update function alone; every "
-          "ordered pair of objects (T1, T3 sample); the full chain; System.after_init() again; after a depth-1 edit",
+          "ordered pair of objects (T1, T3 sample); the full chain; System.after_init() again; after a depth-1 edit or one update carrying 2-3 changes",
           "inputs": "every numeric input compared with the value given, after computing and after recomputing (durations symbolic, not whole hours)",
           "reads": "explain(), str(), to_json, system_to_json (with/without calculated attributes), the *_sum_over_period "
                    "and total_* views"}
@@ -198,6 +198,10 @@ def plan(tier, seed):
     p.append(("fixed_point", dict(skeleton="T5", mode="each", args={"type1": "on-premise", "type2": "autoscaling", "fixed1": 4})))
     p.append(("fixed_point", dict(skeleton="T1", mode="each", edit=num("job", "data_stored"))))
     p.append(("fixed_point", dict(skeleton="T9", mode="chain", edit=dict(k="link", obj="job", attr="server", target="srv_alt"))))
+    # after one update carrying several changes whose recomputation chains overlap (order of the merged chain)
+    p.append(("fixed_point", dict(skeleton="T4", mode="each", edit=dict(k="group", edits=[num("jobB", "data_transferred"), num("step1", "user_time_spent")]))))
+    p.append(("fixed_point", dict(skeleton="T4", mode="each", edit=dict(k="group", edits=[num("step1", "user_time_spent"), num("jobB", "data_transferred")]))))
+    p.append(("fixed_point", dict(skeleton="T5", mode="each", edit=dict(k="group", edits=[num("job", "ram_needed"), num("srv", "ram"), num("job2", "data_stored")]))))
     if tier == "thorough":
         for sk in ("T2", "T4", "T7", "T9"):
             p.append(("fixed_point", dict(skeleton=sk, mode="pairs", pair_sample=seed + 7, n=3)))
